@@ -37,8 +37,58 @@ def job_pair(job):
     return out
 
 
+def job_fraction_types(job):
+    """the greenhouse share handed to OutdoorCrops.set_crop_production_minus_greenhouse_area in every numeric array/list type a
+    caller may legally use (the repository's own idiom for "no greenhouses" is an integer array of zeros): the output must not
+    depend on the container or element type of the argument, and must not be quantised by it"""
+    reloc, baseline, h = job
+    import copy
+    np = supplies._S["np"]
+    c0, t0 = c08.base_constants()
+    c = copy.deepcopy(c0)
+    c.update(BASELINE_CROP_KCALS=np.float64(baseline), NMONTHS=h, OG_USE_BETTER_ROTATION=reloc, ADD_GREENHOUSES=False, STARTING_MONTH_NUM=5)
+    out = {"v": [], "n": 0, "states": 0}
+    key = {"direct": "fraction types reloc=%s baseline=%s h=%d" % (reloc, baseline, h)}
+    rp = {"kind": "fraction_types", "reloc": reloc, "baseline": baseline, "NMONTHS": h}
+
+    def produce(frac):
+        with common.quiet():
+            oc = supplies._S["OutdoorCrops"](c)
+            oc.calculate_rotation_ratios(c)
+            oc.calculate_monthly_production(c)
+            oc.set_crop_production_minus_greenhouse_area(c, frac)
+        return np.asarray(oc.production.kcals, dtype=float)
+    variants = {"float64 zeros": np.zeros(h), "integer zeros (np.array([0] * n))": np.array([0] * h), "float64 share 0.25": np.full(h, 0.25),
+                "float32 share 0.25": np.full(h, 0.25, dtype=np.float32), "int8 zeros": np.zeros(h, dtype=np.int8)}
+    try:
+        ref0, ref25 = produce(variants["float64 zeros"]), produce(variants["float64 share 0.25"])
+        for name, frac in variants.items():
+            out["n"] += 1
+            out["states"] += h
+            got = produce(frac)
+            want = ref25 if "0.25" in name else ref0
+            if not np.allclose(got, want, rtol=1e-6, atol=0):
+                m = int(np.argmax(np.abs(got - want)))
+                out["v"].append(violation("no_quantisation", dict(key, fraction=name), "greenhouse share passed as %s: month %d output %r, the same share as float64 gives %r" % (name, m, float(got[m]), float(want[m])), rp))
+    except Exception as e:
+        import traceback
+        return {"error": "%s: %r %s" % (key, e, traceback.format_exc()[-300:])}
+    return out
+
+
 def run(tier, seed):
     cov, vs, errors = c08.explore("C09", tier, seed)
+    tjobs = [(reloc, b, h) for reloc in (False, True) for b in (0.37e6 * 1e-6, 0.37e6, 5e8) for h in ((48,) if tier == "quick" else (48, 84, 120))]
+    tres = common.pmap(job_fraction_types, tjobs, init_fn=supplies.init, chunksize=1)
+    errors = errors + [r["error"] for r in tres if "error" in r]
+    for r in tres:
+        if "v" in r:
+            vs.extend(r["v"])
+            cov["executions"] += r["n"]
+            cov["states"] += r["states"]
+            cov["transitions"] += r["states"]
+            cov["traces_validated_against_impl"] += r["n"]
+    cov["fraction_argument_types"] = {"jobs": len(tjobs), "types": ["float64", "integer zeros", "float32", "int8"]}
     isos = options.countries()
     sel = isos if tier == "thorough" else ["USA", "BRB", "LUX", "IND"] + common.rotate(isos, seed, 30)
     jobs = [(iso, h, cl) for iso in sel for h in ((48, 120) if tier == "quick" else options.MENUS["NMONTHS"])
@@ -63,6 +113,8 @@ def run(tier, seed):
 
 def replay(rp):
     supplies.init()
+    if rp.get("kind") == "fraction_types":
+        return job_fraction_types((rp["reloc"], rp["baseline"], rp["NMONTHS"])).get("v", [])
     if rp.get("kind") == "pair":
         return job_pair((rp["iso3"], rp["NMONTHS"], rp["crop_disruption"]))["v"]
     return c08.replay(rp, "C09")
